@@ -13,7 +13,8 @@ V = Path(__file__).resolve().parent.parent
 mid, tier = sys.argv[1], sys.argv[2]
 only = sys.argv[3] if len(sys.argv) > 3 else ""
 d = V / "seeded" / mid
-prop = json.loads((d / "meta.json").read_text())["property"]
+prop = os.environ.get("MUTCHECK_PROP") or json.loads((d / "meta.json").read_text())["property"]
+detfile = "detection.json" if not os.environ.get("MUTCHECK_PROP") else "detection-%s.json" % prop
 scratch = Path(os.environ.get("VERIF_SCRATCH", "/var/tmp")) / ("verif-mut-%s-%d" % (mid, os.getpid()))
 if scratch.exists():
     shutil.rmtree(scratch)
@@ -23,9 +24,12 @@ try:
     subprocess.check_call(["rsync", "-a", "--exclude", "/target", "--exclude", "/.git",
                            "/repo/", str(scratch / "repo") + "/"])
     subprocess.check_call(["git", "apply", str(d / "patch.diff")], cwd=scratch / "repo")
-    cmd = ["python3", str(V / "engine/kc.py"), "check", prop, "--tier", tier]
-    if only:
-        cmd += ["--only", only]
+    if prop in ("C06", "C12"):
+        cmd = ["python3", str(V / ("engine/gen6.py" if prop == "C06" else "engine/gen12.py")), "check", "--tier", tier]
+    else:
+        cmd = ["python3", str(V / "engine/kc.py"), "check", prop, "--tier", tier]
+        if only:
+            cmd += ["--only", only]
     env = dict(os.environ)
     env["VERIF_REPO"] = str(scratch / "repo")
     env["VERIF_OUT"] = str(scratch / "out")
@@ -40,7 +44,7 @@ res = {"id": mid, "property": prop, "tier": tier, "only": only, "exit_code": r.r
        "wall_s": round(time.time() - t0, 1),
        "verif_commit": subprocess.run(["git", "-C", str(V), "rev-parse", "--short", "HEAD"],
                                       stdout=subprocess.PIPE).stdout.decode().strip()}
-(d / "detection.json").write_text(json.dumps(res, indent=1) + "\n")
+(d / detfile).write_text(json.dumps(res, indent=1) + "\n")
 print("%s exit=%d detected=%s %.0fs" % (mid, r.returncode, res["detected"], res["wall_s"]))
 for l in viol[:6]:
     print("   ", l[:300])
